@@ -251,6 +251,7 @@ func writeEvidence(ev evidence) {
 type replayFile struct {
 	Property  string   `json:"property"`
 	Seed      uint64   `json:"seed"`
+	Index     uint64   `json:"index"`
 	Tape      []uint32 `json:"tape"`
 	UseSeed   bool     `json:"use_seed"`
 	Flavour   string   `json:"flavour,omitempty"`
@@ -498,7 +499,7 @@ func main() {
 			f.hit += v.n
 			continue
 		}
-		rf := replayFile{Property: p.ID, Seed: r.Seed, Tape: r.Tape, Flavour: flavour, Invariant: r.Violation.Invariant, Sig: r.Violation.Sig, Detail: r.Violation.Detail, FullTape: len(r.Tape), Trace: r.Trace}
+		rf := replayFile{Property: p.ID, Seed: r.Seed, Index: r.Index, Tape: r.Tape, Flavour: flavour, Invariant: r.Violation.Invariant, Sig: r.Violation.Sig, Detail: r.Violation.Detail, FullTape: len(r.Tape), Trace: r.Trace}
 		if r.MinTape != nil {
 			rf.Tape, rf.Minimised, rf.Trace, rf.Detail = r.MinTape, true, r.MinTrace, r.MinDetail
 		}
